@@ -188,7 +188,7 @@ func verifC12PctDecode(s string) (string, bool) {
 // path segments as written (nil when there is no path at all), and the ?query#fragment tail.
 func verifC12Split(raw string) (auth string, segs []string, tail string, ok bool) {
 	const pre = "spiffe://"
-	if !strings.HasPrefix(raw, pre) {
+	if len(raw) < len(pre) || !strings.EqualFold(raw[:len(pre)], pre) { // schemes are case-insensitive (RFC 3986 §3.1)
 		return "", nil, "", false
 	}
 	rest := raw[len(pre):]
